@@ -1,23 +1,23 @@
 SPECIFICATION Spec
 CONSTANTS
   Chains = {"A", "B"}
-  MaxSeq = 2
+  MaxSeq = 1
   MaxH = 2
   Amts = {1}
   Big = 5000
   Kinds = {"fwd", "back"}
   Calls = {"none", "revert"}
-  Alts = {"none"}
-  AckAlts = {"none"}
-  Proofs = {"ok"}
-  Signers = {"relayer"}
+  Alts = {"none", "amt"}
+  AckAlts = {"none", "ackcode"}
+  Proofs = {"ok", "otherkey"}
+  Signers = {"relayer", "outsider"}
   Funds = 1000
   Fees = {0}
   WithRotate = FALSE
-  Delay = 0
+  Delay = 1
   LimWhere <- AllLimWhere
   LimitSets <- NoLimits
-  SendFrom <- OneWay
+  SendFrom <- AllSendFrom
 INVARIANTS TypeOK Conservation Exclusive WrappedBacked MarksExact ReceivedWasSent SeqAgree NoGap CommitIsSent OneAckPerReceipt StatusMatchesAck FeesHeld
 PROPERTIES AckStable ReceiptStable StatusOnce CommitRemovedOnlyByAck RejectChangesNothing
 VIEW stateVars
